@@ -15,7 +15,7 @@ PROPS_FILE = "Props/C10.v"
 PROPS_MODULE = "Props.C10"
 RULE = ("seeded generator of tempo scripts (1..6 changes, bpm from dyadic/decimal/awkward families, metronomes 1..8 "
         "changing on measure lines, pairwise on the 1/96 grid) and query multisets (unsorted, duplicates, grid points of "
-        "every denominator, +-eps off grid; cumulative beats also at arbitrary off-grid times; tempo lists also handed over shuffled); 'snapper_div' cases: Snapper(divisions=...) with custom divisions listed in any order against the table of all fractions of denominator <= max(divisions) built by the harness; 'keeps' cases: the map built by BpmList.to_timing_map / from_bpm_changes_offset from lists in any order, at arbitrary ms positions, with repeated tempos, holds exactly the changes given; a case is non-trivial when it has >=2 tempo changes or >=2 distinct queries; "
+        "every denominator, +-eps off grid; cumulative beats also at arbitrary off-grid times; tempo lists also handed over shuffled; 40 % of the position -> ms cases with query Snap objects carrying a metronome field of their own, 9 / 12 / 16, which says nothing about the position); 'snapper_div' cases: Snapper(divisions=...) with custom divisions listed in any order against the table of all fractions of denominator <= max(divisions) built by the harness; 'keeps' cases: the map built by BpmList.to_timing_map / from_bpm_changes_offset from lists in any order, at arbitrary ms positions, with repeated tempos, holds exactly the changes given; a case is non-trivial when it has >=2 tempo changes or >=2 distinct queries; "
         "distinct by hash of the canonical JSON of the input")
 ASSUMPTIONS = [
     "binary64 rounding inside the implementation is not modelled: the exact stream runs the implementation on "
@@ -121,6 +121,14 @@ def _queries(rng, l, k=None, relgrid_only=False):
     return qs
 
 
+def _foreign_met(rng, case):
+    """40 % of the position -> ms cases hand the queries over as Snap objects whose OWN metronome field (9, 12 or 16: larger than every
+    beat value, so the constructor does not renormalise) differs from the metronome in force: the position is (measure, beat) under the
+    tempo script's metronomes, the field of the query object says nothing about it, and the expected times are unchanged."""
+    if rng.random() < 0.4:
+        case["qmet"] = rng.choice([9, 12, 16])
+
+
 def generate(rng, tier):
     n = 300 if tier == "quick" else 6000
     cases = []
@@ -191,8 +199,10 @@ def generate(rng, tier):
             continue
         if r < 0.3:
             cases.append({"kind": "offsets", "exact": True, "init": F.frac_json(init), "l": jl, "qs": jq})
+            _foreign_met(rng, cases[-1])
         elif r < 0.4:
             cases.append({"kind": "offsets", "exact": False, "init": F.frac_json(init), "l": jl, "qs": jq})
+            _foreign_met(rng, cases[-1])
         elif r < 0.5:
             cases.append({"kind": "rederive", "init": F.frac_json(init), "l": jl})
         elif r < 0.75:
@@ -294,7 +304,9 @@ def execute(case):
             if kind == "rederive":
                 bcs = tm.bpm_changes_snap()
                 return {"v": [{"bpm": F.frac_json(Fr(b.bpm)), "met": F.frac_json(Fr(b.metronome)), "snap": _snapj(b.snap)} for b in bcs]}
-            qs = [Snap(q["m"], F.frac_from_json(q["b"]), q["met"]) for q in case["qs"]]
+            # (offsets: the query Snap objects may carry a metronome field of their own - see _foreign_met)
+            qs = [Snap(q["m"], F.frac_from_json(q["b"]), case["qmet"] if (kind == "offsets" and "qmet" in case) else q["met"])
+                  for q in case["qs"]]
             if kind == "offsets":
                 r = tm.offsets(qs)
                 return {"v": [F.frac_json(Fr(x)) for x in r]}
